@@ -327,6 +327,11 @@ func (t *Tracker) ChannelModes(c, modes string, args ...string) *state.Channel {
 			} else if !on {
 				a.Modes.Limit = 0
 			}
+		case 'b', 'e', 'I':
+			// list modes carry a mask that is not tracked but is an argument of its own
+			if len(args) > 0 {
+				args = args[1:]
+			}
 		case 'q', 'a', 'o', 'h', 'v':
 			if len(args) == 0 {
 				break
